@@ -489,7 +489,7 @@ func c01(c *Ctx) {
 					continue
 				}
 				var pf *ssa.Function
-				switch x := stripConvVal(cc.Args[0]).(type) {
+				switch x := stripConvVal(ptrOrigin(stripConvVal(cc.Args[0]))).(type) {
 				case *ssa.MakeClosure:
 					pf, _ = x.Fn.(*ssa.Function)
 				case *ssa.Function:
@@ -530,7 +530,8 @@ func c01(c *Ctx) {
 							}
 						case ssa.CallInstruction:
 							cal := staticCallee(x)
-							if cal == nil || cal.Name() != "sendMetricsAsync" {
+							toBackend := x.Common().IsInvoke() && x.Common().Method.Name() == "SendMetricsAsync"
+							if !toBackend && (cal == nil || cal.Name() != "sendMetricsAsync") {
 								bad = "passed to " + shortCallee(x)
 							}
 							if _, isGo := x.(*ssa.Go); isGo {
